@@ -1,5 +1,7 @@
 import QeepProofs.Index
 import QeepProofs.Slice
+import QeepProofs.Patch
+import QeepProofs.Concat
 /-!
 # C06 — indexing, reshaping and construction move elements without changing them
 
@@ -164,6 +166,148 @@ theorem slice_get (t : Tensor α) (hwf : t.WF) (index : List (Nat × Nat)) (hok 
 /-- non-vacuity: rows 0..2, columns 1..3 of a [2,3] tensor; partial index with an omitted second range -/
 example : (⟨[2, 3], [1, 2, 3, 4, 5, 6]⟩ : Tensor Nat).sliceRaw [(0, 0), (1, 3)] = some ⟨[2, 2], [2, 3, 5, 6]⟩ ∧
     (⟨[2, 3], [1, 2, 3, 4, 5, 6]⟩ : Tensor Nat).sliceRaw [(1, 2)] = some ⟨[1, 3], [4, 5, 6]⟩ := by decide
+
+end C06
+end Qeep
+
+namespace Qeep
+namespace C06
+variable {α : Type}
+
+theorem valid_of_validAt : ∀ (index : List Int) (dims : List Nat), validAtIndex index dims = true →
+    Valid dims (natDims index)
+  | [], [], _ => .nil
+  | [], _ :: _, h => by simp [validAtIndex] at h
+  | _ :: _, [], h => by simp [validAtIndex] at h
+  | i :: is, d :: ds, h => by
+    simp only [validAtIndex, List.length_cons, List.zip_cons_cons, List.all_cons, Bool.and_eq_true,
+      decide_eq_true_eq, beq_iff_eq] at h
+    obtain ⟨hl, ⟨h0, h1⟩, hrest⟩ := h
+    have ih := valid_of_validAt is ds (by
+      simp only [validAtIndex, Bool.and_eq_true, beq_iff_eq]
+      exact ⟨by omega, hrest⟩)
+    simp only [natDims, List.map_cons]
+    exact .cons (by omega) ih
+
+/-- **At returns the element at a multi-index**: `ok` exactly when the index has one in-range entry per dimension —
+    then it is the element at the row-major position of the index — and an error otherwise; never a panic. -/
+theorem vAt_total (t : Tensor α) (hwf : t.WF) (index : List Int) :
+    (validAtIndex index t.dims = true → ∃ x, vAt t index = .ok x ∧
+        t.data[val t.dims.reverse (natDims index).reverse]? = some x) ∧
+    (validAtIndex index t.dims = false → vAt t index = .err) := by
+  constructor
+  · intro h
+    have hv := valid_reverse' (valid_of_validAt index t.dims h)
+    have hlt := val_lt hv
+    rw [prod_reverse, ← hwf.1] at hlt
+    refine ⟨t.data[val t.dims.reverse (natDims index).reverse], ?_, List.getElem?_eq_getElem hlt⟩
+    have := Tensor.at?_reverse t hv
+    rw [List.reverse_reverse] at this
+    simp [vAt, h, this, List.getElem?_eq_getElem hlt, Out.ofOpt]
+  · intro h; simp [vAt, h]
+where
+  valid_reverse' : ∀ {ds st : List Nat}, Valid ds st → Valid ds.reverse st.reverse
+    | _, _, .nil => .nil
+    | _, _, .cons h hv => by
+      simp only [List.reverse_cons]
+      exact valid_append (valid_reverse' hv) h
+
+end C06
+end Qeep
+
+namespace Qeep
+namespace C06
+variable {α : Type}
+
+/-- what the validator guarantees about a Patch (natural numbers): equal ranks, source not larger than target,
+    each given range either `{0,0}` or a non-empty range inside the target that exactly covers the source -/
+inductive PatchOK : List (Nat × Nat) → List Nat → List Nat → Prop
+  | nil : PatchOK [] [] []
+  | omit {sd sds dd dds} : sd ≤ dd → PatchOK [] sds dds → PatchOK [] (sd :: sds) (dd :: dds)
+  | cons {f t idx sd sds dd dds} : sd ≤ dd → ((f = 0 ∧ t = 0) ∨ (f < t ∧ t ≤ dd ∧ t - f = sd)) →
+      PatchOK idx sds dds → PatchOK ((f, t) :: idx) (sd :: sds) (dd :: dds)
+
+theorem fitsP_complete : ∀ {idx sds dds}, PatchOK idx sds dds → FitsP (completeIndex idx sds) sds dds
+  | _, _, _, .nil => by simp [completeIndex]; exact .nil
+  | _, _, _, .omit h hr => by
+    simp only [completeIndex]
+    exact .cons (by omega) (fitsP_complete hr)
+  | _, _, _, .cons (f := f) (t := t) (sd := sd) h hrange hr => by
+    simp only [completeIndex]
+    split
+    · exact .cons (by omega) (fitsP_complete hr)
+    · rename_i hne
+      rcases hrange with h0 | h1
+      · exact absurd h0 hne
+      · exact .cons (by omega) (fitsP_complete hr)
+
+/-- **Patch writes the source block at the indexed position and leaves every other element unchanged** — for every
+    rank and every mix of explicit / omitted / `{0,0}` ranges (an omitted or `{0,0}` range places the source at
+    offset 0): no panic, the target's dims, and at every target index `js` the source element (index shifted back by
+    `From`) inside the block, the target element outside. -/
+theorem patch_get (t u : Tensor α) (ht : t.WF) (hu : u.WF) (index : List (Nat × Nat)) (hok : PatchOK index u.dims t.dims) :
+    ∃ data, t.patchRaw index u = some ⟨t.dims, data⟩ ∧ data.length = prod t.dims ∧
+      ∀ js, Valid t.dims js →
+        (⟨t.dims, data⟩ : Tensor α).at? js =
+          if insideP (completeIndex index u.dims) u.dims js then u.at? (unshiftP (completeIndex index u.dims) js)
+          else t.at? js := by
+  obtain ⟨out, h1, h2, h3⟩ := patchData_get (completeIndex index u.dims) u.dims t.dims u.data t.data
+    (fitsP_complete hok) hu.1 ht.1
+  exact ⟨out, by simp [Tensor.patchRaw, h1], h2, h3⟩
+
+/-- non-vacuity: a [2,2] source into a [3,3] target with the partial index {1:3} (offset 0 along the omitted dim) -/
+example : (⟨[3, 3], [1, 2, 3, 4, 5, 6, 7, 8, 9]⟩ : Tensor Nat).patchRaw [(1, 3)] ⟨[2, 2], [10, 20, 30, 40]⟩
+    = some ⟨[3, 3], [1, 2, 3, 10, 20, 6, 30, 40, 9]⟩ := by decide
+
+end C06
+end Qeep
+
+namespace Qeep
+namespace C06
+variable {α : Type}
+
+/-- **Concat lays its operands end to end along one dimension** — for every operand count ≥ 1, every rank ≥ 1,
+    every `dim` and all sizes: whenever the operands agree with the first one on every dimension except `dim`
+    (what the validator checks), the concatenation succeeds (no panic), has the first operand's dims with `dim`
+    replaced by the sum of the operands' sizes, and every result index is routed (`route`) to exactly one operand
+    `s` and an operand-local index (coordinate along `dim` reduced by the sizes of the operands before `s`), where
+    the result holds that operand's element. -/
+theorem concat_get (t0 : Tensor α) (ts : List (Tensor α)) (dim : Nat) (hdim : dim < t0.dims.length)
+    (hwf : ∀ t ∈ t0 :: ts, t.WF)
+    (hagree : ∀ t ∈ t0 :: ts, t.dims.length = t0.dims.length ∧ ∀ j, j ≠ dim → t.dims[j]? = t0.dims[j]?) :
+    let lens := (t0 :: ts).map (fun t => t.dims.getD dim 0)
+    ∃ data, concatRaw (t0 :: ts) dim = some ⟨t0.dims.set dim lens.sum, data⟩ ∧
+      data.length = prod (t0.dims.set dim lens.sum) ∧
+      ∀ idx, Valid (t0.dims.set dim lens.sum) idx →
+        ∃ s idx' t, route dim lens idx = some (s, idx') ∧ (t0 :: ts)[s]? = some t ∧
+          (⟨t0.dims.set dim lens.sum, data⟩ : Tensor α).at? idx = t.at? idx' := by
+  intro lens
+  let seeds : List (List Nat × List α) := (t0 :: ts).map (fun t => (t.dims, t.data))
+  have hlens : lensAt dim seeds = lens := by simp [lensAt, seeds, lens, List.map_map, Function.comp_def]
+  have hok : SeedsOK dim (delAt dim t0.dims) seeds := by
+    apply seedsOK_of dim _ seeds (by have := delAt_length dim t0.dims hdim; omega)
+    intro s hs
+    obtain ⟨t, ht, rfl⟩ := List.mem_map.mp hs
+    obtain ⟨hl, hj⟩ := hagree t ht
+    refine ⟨t.dims.getD dim 0, ?_, (hwf t ht).1⟩
+    have e := eq_rdimsOf dim t0.dims t.dims hl hdim hj
+    exact e
+  obtain ⟨out, h1, h2, h3⟩ := concatData_get dim (delAt dim t0.dims) seeds hok
+  rw [hlens, rdimsOf_set dim t0.dims _ hdim] at h1 h2 h3
+  have hcd : concatDims (t0 :: ts) dim = t0.dims.set dim lens.sum := rfl
+  refine ⟨out, by simp only [concatRaw, hcd]; rw [h1]; rfl, h2, ?_⟩
+  intro idx hidx
+  obtain ⟨s, idx', r1, r2, _, r4⟩ := h3 idx hidx
+  have r2' : s < (t0 :: ts).length := by simpa [seeds] using r2
+  refine ⟨s, idx', (t0 :: ts)[s], r1, List.getElem?_eq_getElem r2', ?_⟩
+  rw [r4]
+  have hsel : seeds[s]! = (((t0 :: ts)[s]).dims, ((t0 :: ts)[s]).data) := by
+    simp only [seeds, List.getElem!_eq_getElem?_getD, List.getElem?_map, List.getElem?_eq_getElem r2']
+    rfl
+  rw [hsel]
+
+/-- non-vacuity: two [2,·] blocks along dim 1 -/
+example : concatRaw [(⟨[2, 1], [1, 2]⟩ : Tensor Nat), ⟨[2, 2], [3, 4, 5, 6]⟩] 1 = some ⟨[2, 3], [1, 3, 4, 2, 5, 6]⟩ := by decide
 
 end C06
 end Qeep
